@@ -68,6 +68,7 @@ impl C14Heavy {
                 favored: None,
                 locked: None,
                 lock_gone: false,
+                hint_unlisted: false,
                 hint: hint.clone(),
                 unlisted: vec![],
             });
